@@ -444,7 +444,9 @@ def build():
     C.helpers["waits_can_end"] = waits_can_end
     for demo_, what_ in (("c06_end_game_while_game_starting.py", "a game ended inside game_starting ends (and a new one can start)"),
                          ("c06_end_request_between_balls.py", "an end_game request made while a turn is starting ends the game "
-                                                              "before the next ball")):
+                                                              "before the next ball"),
+                         ('c06_late_player_add_extra_ball.py',
+                          'a player-add request that arrives after the rotation back to player 1 (inside player_turn_will_start / _starting of ball 2) is refused: no player gets more balls than balls_per_game')):
         C.finite_checks.append(common.native_demo_check(demo_, what_))
     C.fn("Game._start_game",
          ensures=[("G4: game_will_start, game_starting (queue, carrying the game), then - once a player exists - "
